@@ -96,6 +96,14 @@ func (w *guardWalker) walk(v ssa.Value, conds []condFact, fr *frame, depth int) 
 		}
 		switch a := x.X.(type) {
 		case *ssa.Alloc:
+			// a cell whose stored value is computed from the cell itself (x = f(x), a result variable of an
+			// inlined helper assigned from itself) must not be walked round and round
+			ckey := fmt.Sprintf("cell:%p", a)
+			if w.seen[ckey] {
+				return
+			}
+			w.seen[ckey] = true
+			defer delete(w.seen, ckey)
 			n := 0
 			forEachUseOfCell(a, func(in ssa.Instruction, how string, c ssa.CallInstruction, argIdx int) {
 				if how == "store" {
@@ -212,7 +220,15 @@ func (w *guardWalker) fieldLoad(fa *ssa.FieldAddr, v ssa.Value, conds []condFact
 				}
 				for _, r2 := range *fa2.Referrers() {
 					if st, ok := r2.(*ssa.Store); ok && st.Addr == ssa.Value(fa2) {
+						// a store whose value is computed from the field itself (x.F = keepOr(x.F, ...)) is
+						// not walked again from inside its own walk
+						skey := fmt.Sprintf("fstore:%p", st)
+						if w.seen[skey] {
+							continue
+						}
+						w.seen[skey] = true
 						w.walk(st.Val, add(w.p.facts(st.Block())), l.fr, depth+1)
+						delete(w.seen, skey)
 					}
 				}
 			}
